@@ -186,7 +186,7 @@ class Ledger:
 
     # ------------------------------------------------------------------ discharge
     def discharge(self, site):
-        for tac in (self.t_const, self.t_interval, self.t_guarded, self.t_peeked, self.t_constargs):
+        for tac in (self.t_const, self.t_infeasible, self.t_interval, self.t_guarded, self.t_peeked, self.t_constargs):
             why = tac(site)
             if why:
                 site.tactic, site.why = tac.__name__[2:], why
@@ -212,6 +212,8 @@ class Ledger:
         copies = {}
         for o in site.operands:
             for x in expr_walk(o):
+                if x[0] == "field" and isinstance(x[2], str) and not x[2].isdigit():
+                    names.add(x[2])          # a renamed private field must not orphan a reviewed entry either
                 if x[0] in ("local", "arg") and isinstance(x[2], str):
                     names.add(x[2])
                     if x[0] == "local":
@@ -470,6 +472,9 @@ class Ledger:
             self._res = Resolver(self.ctx)
         fn = site.fn
         exprs = [fn.expr(o, 14) for o in raw]
+        shift = site.kind in ("overflow:Shl", "overflow:Shr") and len(exprs) == 2
+        if shift:
+            exprs = [("const", 0), exprs[1]]        # only the amount of a shift can overflow; the shifted value is free
         b = self._res.bindings(fn, exprs)
         if b is None:
             return None
@@ -769,6 +774,18 @@ class Ledger:
                 for f in v["fields"]:
                     if f["name"] == name and f["ty"] in TY_RANGE:
                         return TY_RANGE[f["ty"]]
+        return None
+
+    def t_infeasible(self, site):
+        """the site sits in the default arm of a match on an integer whose range the other arms cover completely
+        (`match x >> 12 { 0 => .., .., 15 => .., _ => unreachable!() }`)"""
+        fn = site.fn
+        cons = self._dom_constraints(fn, site.bb)
+        for c, v in cons:
+            if isinstance(v, tuple) and v[0] == "not" and len(v[1]) >= 2 and c[0] != "discr":
+                iv = self.ival(fn, c, [x for x in cons if x[0] is not c])
+                if iv and 0 <= iv[1] - iv[0] < 65536 and all(k in set(v[1]) for k in range(iv[0], iv[1] + 1)):
+                    return "infeasible: `%s` lies in [%d,%d] and every one of these values has an arm of its own" % (expr_str(c, 50), iv[0], iv[1])
         return None
 
     def t_interval(self, site):
@@ -1133,7 +1150,7 @@ def load_ledger():
     return {e["key"]: e for e in d.get("entries", [])}
 
 
-def run_ledger(ctx, rule_id, title, entries, stop=(), floor=1, include_exits=False, only=None, profile_note=None):
+def run_ledger(ctx, rule_id, title, entries, stop=(), floor=1, include_exits=False, only=None, profile_note=None, conditional=None):
     """standard driver: enumerate, discharge, report"""
     if ctx.profile != "dev":
         floor = max(1, floor // 4)      # overflow and debug assertions are compiled out of release MIR
@@ -1147,6 +1164,12 @@ def run_ledger(ctx, rule_id, title, entries, stop=(), floor=1, include_exits=Fal
             continue
         ctx.instance(1)
         ok = L.discharge(s)
+        if not ok and conditional:
+            # a site another rule's argument covers (the rule is named; its verdict is part of the same property's check or of a sibling's)
+            for pred, on_rule, reason in conditional:
+                if pred(s):
+                    ok, s.tactic, s.why = True, "conditional:" + on_rule, reason
+                    break
         assumed = bool(ok and s.tactic and s.tactic.startswith("ledger:assum"))
         ctx.oblig(ok, {"site": s.key, "at": s.where(), "tactic": s.tactic, "why": s.why} if ok and len(ctx.cur.samples) < 6 else None,
                   s.tactic, assumed=assumed)
